@@ -3,3 +3,4 @@ import OsuModel.TimeIntegration
 import OsuModel.TimeConv
 import OsuModel.Spectral
 import OsuModel.Interp
+import OsuModel.Dispersion
